@@ -46,7 +46,12 @@ pub fn rand_name(r: &mut StdRng, len_class: &[usize]) -> Vec<u8> {
     match r.gen_range(0..10) {
         0..=4 => pick(r, &NAME_POOL).as_bytes().to_vec(),
         5 => { let mut v = pick(r, &NAME_POOL).as_bytes().to_vec(); if !v.is_empty() { let i = r.gen_range(0..v.len()); v[i] = pick(r, &[0xff, 0xfe, 0xc3, 0x80]); } v },
-        6 => "HTTP_X_\u{e9}T\u{c9}".as_bytes().to_vec(),
+        6 => match r.gen_range(0..4) {
+            0 => "HTTP_X_\u{e9}T\u{c9}".as_bytes().to_vec(),
+            1 => "\u{e9}\u{20ac}\u{e9}\u{20ac}x\u{1f600}_\u{c9}".as_bytes().to_vec(),
+            2 => { let mut v = "caf\u{e9}_\u{20ac}".as_bytes().to_vec(); v.truncate(v.len() - 1); v },   // truncated sequence at the end
+            _ => vec![b'a', 0xe2, 0x82, b'b', 0xc3, 0xf0, 0x9f, 0x98],                                  // invalid and truncated sequences inside
+        },
         _ => { let n = pick(r, len_class); (0..n).map(|i| b"abcXYZ_-09"[(i * 7 + n) % 10]).collect() },
     }
 }
